@@ -115,9 +115,18 @@ func legacyGCM(password, seed []byte) []byte {
 
 // ---------- part 1 ----------
 
+var allPwLens bool // thorough tier: every password length 1..66
+
 func passwords() [][]byte {
 	var out [][]byte
-	for _, n := range []int{1, 8, 31, 32, 33, 64} {
+	lens := []int{1, 8, 31, 32, 33, 64}
+	if allPwLens {
+		lens = lens[:0]
+		for n := 1; n <= 66; n++ {
+			lens = append(lens, n)
+		}
+	}
+	for _, n := range lens {
 		a := make([]byte, n)
 		b := make([]byte, n)
 		for i := range a {
@@ -663,7 +672,7 @@ func main() {
 	clog.SetLogLevel("crit")
 	queue.DisableLog()
 	r := vx.Start("C37", "model_checking")
-	r.Rule = "part 1: flat product of passwords (byte lengths 1,8,31,32,33,64; ASCII and non-UTF8 contents) x private keys of every length a registered crypto driver produces (4 contents) x IV {zeros, ones, legacy IV, counter} for CBC new format + the legacy-rule blob; x every accepted mnemonic (12..24 words, 2 languages) x nonce {zeros, ones, legacy nonce, counter} for GCM new format + the legacy-rule blob. part 2: BFS over all histories of SetPasswd(old,new) (3 valid passwords incl. 8/30 bytes and non-ASCII letters, 2 invalid new), Lock, Unlock(p), Restart on a real wallet.Wallet with a saved seed and 3 imported keys; variants secp256k1/ed25519 x stored blobs in new/legacy format; state = (current password, password in memory, lock flag, which pool passwords decrypt each stored secret, blob lengths). distinct = (function, password length, plaintext length, iv) classes of part 1"
+	r.Rule = "part 1: flat product of passwords (byte lengths 1,8,31,32,33,64 in the quick tier, every length 1..66 in the thorough tier; ASCII and non-UTF8 contents) x private keys of every length a registered crypto driver produces (4 contents) x IV {zeros, ones, legacy IV, counter} for CBC new format + the legacy-rule blob; x every accepted mnemonic (12..24 words, 2 languages) x nonce {zeros, ones, legacy nonce, counter} for GCM new format + the legacy-rule blob. part 2: BFS over all histories of SetPasswd(old,new) (3 valid passwords incl. 8/30 bytes and non-ASCII letters, 2 invalid new), Lock, Unlock(p), Restart on a real wallet.Wallet with a saved seed and 3 imported keys; variants secp256k1/ed25519 x stored blobs in new/legacy format; state = (current password, password in memory, lock flag, which pool passwords decrypt each stored secret, blob lengths). distinct = (function, password length, plaintext length, iv) classes of part 1"
 	r.Assume = []string{
 		"the wallet's current password is the NewPass of the last ProcWalletSetPasswd call that returned nil (initially the SaveSeed password)",
 		"crypto/aes, crypto/cipher are correct; legacy blobs are built from the rule in the decrypters' fallback (IV = key[:16] / nonce = key[:12], no prefix, same key derivation)",
@@ -711,6 +720,7 @@ func main() {
 		}
 		r.Finish()
 	}
+	allPwLens = !r.Quick()
 	flat(r)
 	for _, v := range variants {
 		walletHarness(r, v, getCfg(v.sign), depth).Explore()
